@@ -588,7 +588,7 @@ class Search:
                         text = ('the histories [%s] and [%s] leave the daemon in the same visible state, yet a client announced afterwards is treated differently: at "%s" the daemon writes %r after the first and %r after the second'
                                 % (ha, hb, proto.ev_str(suf[k]) if k is not None else 'end', list(outs[0][1][k]) if k is not None else outs[0][0], list(outs[1][1][k]) if k is not None else outs[1][0]))
                         bad.append((text, {'engine': 'E1-merge', 'conf': self.conf, 'hist_a': [list(map(_jsonable, c)) for c in hist_a], 'hist_b': [list(map(_jsonable, c)) for c in hist_b],
-                                           'suffix': [list(e) for e in suf], 'serial_a': ser_a, 'serial_b': ser_b, 'id': i}))
+                                           'suffix': [list(e) for e in suf], 'serial_a': ser_a, 'serial_b': ser_b, 'id': i, 'self_loop': tgt == frm, 'last_event': list(ev)}))
         finally:
             srv.close()
         return len(pairs), bad
